@@ -7,6 +7,9 @@
 (*                   close                       (pinned commit)               *)
 (* Variant "fixed" : load; [edit]; encode; open(T,"wb"); write; close;         *)
 (*                   os.replace(T, M)            (after the repair)            *)
+(* Variant "inwith": as fixed but os.replace is called while the temporary    *)
+(*                   file is still open (a seeded defect): the rename carries  *)
+(*                   an empty file to M, the data follows at close.            *)
 (* Variant "notrunc": as fixed but the temporary file is opened without        *)
 (*                   truncation (a seeded defect): safe for one edit, unsafe   *)
 (*                   for an edit that follows an interrupted one (Restart).    *)
@@ -18,6 +21,9 @@ Op(kind, p, p2, d) == [kind |-> kind, p |-> p, p2 |-> p2, d |-> d, n |-> -1]
 Program == IF Variant = "code"
            THEN <<Op("remove", "M", "", ""), Op("ENC", "", "", ""), Op("open_trunc", "M", "", ""),
                   Op("write", "M", "", "New"), Op("close", "M", "", "")>>
+           ELSE IF Variant = "inwith"
+           THEN <<Op("ENC", "", "", ""), Op("open_trunc", "T1", "", ""), Op("write", "T1", "", "New"),
+                  Op("rename", "T1", "M", ""), Op("close", "T1", "", "")>>
            ELSE <<Op("ENC", "", "", ""), Op(IF Variant = "notrunc" THEN "open_create" ELSE "open_trunc", "T1", "", ""),
                   Op("write", "T1", "", "New"),
                   Op("close", "T1", "", ""), Op("rename", "T1", "M", "")>>
@@ -45,7 +51,7 @@ TornWrite == /\ Running /\ Program[pc].kind = "write"
 \* its "Old"; whatever the first run left elsewhere is still there (length unknown)
 Relabel(f) == [c |-> [p \in DOMAIN f.c |-> IF p = "M" THEN "Old"
                                            ELSE IF f.c[p] \in {"Absent", "Empty"} THEN f.c[p] ELSE "Other"],
-               pend |-> [p \in DOMAIN f.pend |-> NoPend], sz |-> [p \in DOMAIN f.sz |-> -1]]
+               pend |-> [p \in DOMAIN f.pend |-> NoPend], sz |-> [p \in DOMAIN f.sz |-> -1], loc |-> NoLoc]
 Restart == /\ status \in {"crashed", "error"} /\ round = 1 /\ Safe(fs)
            /\ fs' = Relabel(fs) /\ pc' = 1 /\ status' = "running" /\ round' = 2
            /\ encodable' \in BOOLEAN
